@@ -1,12 +1,16 @@
 #!/bin/bash
-# usage: tryseed.sh <seed-dir-name> <property ids...>   applies seeded/<name>/patch.diff to /repo, runs the checks, reverts.
+# usage: tryseed.sh <seed-dir-name> <property ids...>
+# Applies seeded/<name>/patch.diff to a scratch worktree of /repo (never to /repo itself), runs the checks against that
+# worktree in a sandbox (nothing is written under /verif), prints one line per check, removes worktree and sandbox.
 name=$1; shift
 cd /verif
-git -C /repo diff --quiet || { echo "/repo has uncommitted changes"; exit 2; }
-git -C /repo apply /verif/seeded/$name/patch.diff || exit 2
+wt=$(mktemp -d /tmp/seedwt.XXXXXX); sb=$(mktemp -d /tmp/seedsb.XXXXXX)
+rmdir $wt
+git -C /repo worktree add -q --detach $wt HEAD || exit 2
+git -C $wt apply /verif/seeded/$name/patch.diff || { git -C /repo worktree remove --force $wt; rm -rf $sb; exit 2; }
 for p in "$@"; do
-  out=$(./check $p --tier quick 2>&1); rc=$?
+  out=$(VERIF_REPO=$wt VERIF_SANDBOX=$sb ./check $p --tier ${TIER:-quick} 2>&1); rc=$?
   echo "[$name] $p rc=$rc :: $(echo "$out" | grep -E 'VIOLATION|KNOWN|INFRA' | head -3 | tr '\n' ' ') $(echo "$out" | tail -1)"
 done
-git -C /repo checkout -- .
-git -C /repo status --short | head -3
+git -C /repo worktree remove --force $wt
+rm -rf $sb
